@@ -336,6 +336,7 @@ def check_json(res, fmt, text, features, shown, case):
     # a feature without shown scenarios may still be reported: match by name
     by_name = dict((f.name, f) for f in features)
     elements = []
+    backgrounds = {}        # feature name -> [step names of each background element, in order]
     for jf in data:
         f = by_name.get(jf.get("name"))
         if f is None:
@@ -353,8 +354,32 @@ def check_json(res, fmt, text, features, shown, case):
                 if "status" in el and el["status"] is not None:
                     res.fail("C15.json.status-on-wrong-element",
                              "%s: background element of feature %r carries status %r" % (fmt, f.name, el["status"]))
+                backgrounds.setdefault(f.name, []).append([j.get("name") for j in el.get("steps", [])])
             else:
                 res.fail("C15.json.element", "%s: unknown element type %r" % (fmt, el.get("type")))
+    # -- a background element lists the steps WRITTEN in that Background section (the feature's own, then one
+    #    per rule that has a Background of its own or inherits the feature's), not the inherited ones
+    from ..program import step_text
+    import copy as _copy
+    from ..program import normalize as _normalize
+    prog = _normalize(_copy.deepcopy(case.get("program") or {"features": []}))
+    fnames = [f.get("name") for f in prog.get("features", [])]
+    if len(set(fnames)) == len(fnames):
+        for feat in prog.get("features", []):
+            if feat.get("name") not in backgrounds:
+                continue
+            written = []
+            if feat.get("bg") is not None:
+                written.append([step_text(st_) for st_ in feat["bg"]])
+            for it in feat["items"]:
+                if it["k"] == "r" and (it.get("bg") is not None or feat.get("bg") is not None):
+                    written.append([step_text(st_) for st_ in (it.get("bg") or [])])
+            got = backgrounds[feat["name"]]
+            if len(got) == len(written) and got != written:
+                res.fail("C15.json.background", "%s: feature %r: background elements list the steps %r, the Background "
+                         "sections contain %r" % (fmt, feat["name"], got, written))
+            elif len(got) == len(written) and any(written):
+                res.label("json:background-steps")
     if [e.get("name") for e in elements] != [s.name for s in shown]:
         res.fail("C15.json.scenarios", "%s scenarios %r, shown scenarios %r"
                  % (fmt, [e.get("name") for e in elements][:6], [s.name for s in shown][:6]))
@@ -574,7 +599,7 @@ def explore(rec):
 
 
 def required_labels(tier):
-    return ["fmt:" + f for f in FORMATTERS] + ["rule-background", "outline", "failure", "deselection", "dry-run",
+    return ["fmt:" + f for f in FORMATTERS] + ["json:background-steps", "rule-background", "outline", "failure", "deselection", "dry-run",
                                                "dry-run+undefined", "readback:file", "skipped-by-hook:feature", "skipped-by-hook:scenario",
                                                "skipped-by-hook:rule"]
 
